@@ -357,7 +357,10 @@ class Engine(EngineBase, ExprMixin, CompMixin, CallMixin, FuncMixin, StmtMixin):
         s.add(*st.pc)
         cover = s.check()
         ob = Obligation(f"{lem.prop}/lemma:{ident}/cover", "cover", f"lemma:{ident}", [], z3.BoolVal(True), "hypotheses satisfiable", lem.prop)
-        ob.result = "discharged" if cover == z3.sat else ("unknown" if cover == z3.unknown else "refuted")
+        # (as for functions: the vacuity guard is that the hypotheses are not *shown* contradictory; `unknown` - a solver
+        #  budget matter - passes and is recorded as such)
+        ob.result = "refuted" if cover == z3.unsat else "discharged"
+        ob.reason = "" if cover == z3.sat else f"hypotheses satisfiability: {cover}"
         ob.backend, ob.is_cover = "z3", True
         for i, p in enumerate(lem.prove):
             self.oblige(st, "lemma", f"#{i}", self.spec_goal(p, st), descr=p)
